@@ -29,7 +29,7 @@ def make_array(shape, dtype, base, mask):
         words = ["a", "bc", "def", "gh", "ijklm", "n", "opq"]
         a = np.array([words[(base + j) % len(words)] + str((base + j) % 3) for j in range(n)]).reshape(shape)
     else:
-        a = (np.arange(n) + base % 50)
+        a = (np.arange(n) + base % 50) % 100     # stay clear of every default fill value and of i1/u1 overflow
         if dtype.startswith("f"):
             a = a * 0.5
         a = a.astype(dtype).reshape(shape)
@@ -92,7 +92,10 @@ def build(spec):
             x.set_bounds(bb)
             if c.get("climatology"):
                 x.set_climatology(True)
-        ckeys.append(f.set_construct(x, axes=[akeys[a] for a in c["axes"]]))
+        if c.get("nodata") and not c["axes"]:
+            ckeys.append(f.set_construct(x))
+        else:
+            ckeys.append(f.set_construct(x, axes=[akeys[a] for a in c["axes"]]))
     for cm in spec.get("cms", []):
         axes = [akeys[a] if isinstance(a, int) else a for a in cm["axes"]]
         m = cfdm.CellMethod(axes=axes, method=cm["method"], qualifiers=cm.get("quals") or {})
@@ -144,7 +147,7 @@ def jdata(x):
         dt = "str"
     else:
         vals = [None if m else v for v, m in zip(a.data.ravel().tolist(), mask.ravel().tolist())]
-        dt = str(a.dtype)
+        dt = a.dtype.name          # byte order is a storage detail, not part of the data type
     out = {"shape": list(a.shape), "dtype": dt, "vals": vals}
     u = d.get_units(None)
     if u is not None:
@@ -226,6 +229,12 @@ def fingerprint(f):
         names.append(["self", "var", f.nc_get_variable()])
     for ak, ax in axes.items():
         if ax.nc_get_dimension(None) is not None:
+            if is_field and ak not in data_axes and ax.get_size(None) == 1:
+                continue   # written as a scalar coordinate variable, which has no netCDF dimension
+            dc = [x.nc_get_variable(None) for k, (t, x) in meta.items()
+                  if t == "dimension_coordinate" and tuple(cda.get(k, ())) == (ak,)]
+            if dc and dc[0] is not None and dc[0] != ax.nc_get_dimension():
+                continue   # a coordinate variable's name is its dimension's name: netCDF cannot hold both
             names.append([alabel[ak], "dim", ax.nc_get_dimension()])
     for k, (t, x) in meta.items():
         if x.nc_get_variable(None) is not None:
